@@ -130,3 +130,13 @@ def time_format_frames(rate, model, obligation=""):
   out = to_time_format(TemporalAttributeWritingContext(frame_rate=r, time_expression_syntax=TimeExpressionSyntaxEnum.frames), t)
   want = f"{math.ceil(t * r)}f"
   return (out != want), f"to_time_format(frames, {t}) = {out!r}, expected {want!r}"
+
+
+def time_format_clock(rate, model, obligation=""):
+  from ttconv.imsc.attributes import to_time_format, TemporalAttributeWritingContext, TimeExpressionSyntaxEnum
+  r = _rate(rate)
+  t = _frac(model.get("t"))
+  out = to_time_format(TemporalAttributeWritingContext(frame_rate=r, time_expression_syntax=TimeExpressionSyntaxEnum.clock_time), t)
+  ms = round(t * 1000)
+  want = f"{ms // 3600000:02d}:{ms // 60000 % 60:02d}:{ms // 1000 % 60:02d}.{ms % 1000:03d}"
+  return (out != want), f"to_time_format(clock_time with frame rate {r}, {t}) = {out!r}, expected {want!r}"
